@@ -11,7 +11,8 @@ import UF.Gen.Facts
   * `Facts.p4Accesses`  every access to a guarded field through ANY expression of the struct's type
                         (receiver, local, parameter, free function, closure) with the locks held on that object;
   * `Facts.p4Writers`   every write of a field of the struct types the model treats as immutable, in every
-                        package (`rules` included), with q = on a query path, c = constructor-only.
+                        package (`rules` included), with q = on a query path, c = constructor-only;
+  * `Facts.p4GlobalWriters` the same for package-level variables.
 
   None of the obligations names a function except through `unlockedActions` (the five deliberate unlocked
   accesses), so extracting a critical section or a parse step into a helper does not disturb them.
@@ -61,10 +62,16 @@ theorem c14_fact_no_query_writes_all :
 
 /-- FACT: every such writer is a constructor of a frozen type (`New*`/`new*` returning one, or `rules.Rule`) or a
     function all of whose call sites in the module lie in constructor-only functions (the option loaders of
-    `NewNetworkRule`, the `$dnsrewrite` handlers, `addRule`/`AddRule`/`TryAdd`). -/
+    `NewNetworkRule`, `clients.add`, `addRule`/`AddRule`/`TryAdd`; `init`).  (Composite literals exempt as above.) -/
 theorem c14_fact_writers_constructor_only_all :
     Facts.p4Writers.all (fun r =>
-      r.2.2.2.2 == "c" || postConstructionWriters.contains (r.1, r.2.1)) = true := by decide
+      r.2.2.1 == "lit" || r.2.2.2.2 == "c" || postConstructionWriters.contains (r.1, r.2.1)) = true := by decide
+
+/-- FACT pinning `Prog.State` as ALL the shared mutable state (cache, cells, pool, closed lists): no function on
+    a query path (same call graph) assigns to, or writes through, a PACKAGE-LEVEL variable of the module (a
+    memo table beside the engines would be shared state the machine does not have -- seeded change C14-8). -/
+theorem c14_fact_no_query_global_writes :
+    Facts.p4GlobalWriters.all (fun r => r.2.2.1 == "-") = true := by decide
 
 /-- FACT: the extraction is not vacuous: the scan covered the packages, found every guarded field and every
     frozen struct type, and each main type has a constructor-only writer. -/
